@@ -237,8 +237,9 @@ class Check:
                 return False
             self.replayed += 1
             if not cex.get('reproduced'):
-                self.inconclusive.append('ENCODING-MISMATCH: %s: model does not reproduce natively: %s'
-                                         % (name, json.dumps(cex.get('replay'), ensure_ascii=False)[:600]))
+                fired = cex.get('replay', {}).get('fired') if isinstance(cex.get('replay'), dict) else None
+                self.inconclusive.append('ENCODING-MISMATCH: %s: model does not reproduce natively (fired: %s): %s'
+                                         % (name, fired, json.dumps(cex.get('replay'), ensure_ascii=False)[:500]))
                 return False
             kf = self.match_known(cex['key'])
             if kf is not None and block is not None:
@@ -258,6 +259,28 @@ class Check:
         self.inconclusive.append('too many known findings matched in ' + name)
         return False
 
+    def prove_none(self, name, assumptions, labelled_bad, on_cex, block=None):
+        """obligation: none of the labelled bad conditions is satisfiable under the assumptions.  The labels of the
+        conditions that hold in a counterexample model are passed to on_cex as m.fired (and reported)."""
+        exprs = [e for _, e in labelled_bad]
+        if not exprs:
+            self.obligations += 1
+            self.discharged += 1
+            return True
+        goal = z3.Not(z3.Or(*exprs)) if len(exprs) > 1 else z3.Not(exprs[0])
+
+        def wrapped(m):
+            fired = [lab for lab, e in labelled_bad if z3.is_true(m.eval(e, model_completion=True))]
+            try:
+                cex = on_cex(m, fired)
+            except TypeError:
+                cex = on_cex(m)
+            cex.setdefault('replay', {})
+            if isinstance(cex['replay'], dict):
+                cex['replay']['fired'] = fired[:6]
+            return cex
+        return self.prove(name, assumptions, goal, wrapped, block)
+
     def match_known(self, key):
         for k in self.known:
             if k.get('status', 'known') != 'known':
@@ -266,6 +289,38 @@ class Check:
             if all(key.get(a) == b for a, b in kk.items()):
                 return k
         return None
+
+    # -------------------------------------------------------------- sub-checks run in worker processes
+    def export(self):
+        """picklable summary of a (worker) check"""
+        d = {k: getattr(self, k) for k in ('obligations', 'discharged', 'queries', 'solver_time', 'covers', 'covers_sat',
+                                            'samples', 'replayed', 'known_hits', 'inconclusive', 'paths', 'stmts',
+                                            'outside', 'assumptions', 'notes', 'states', 'transitions', 'bound_cuts',
+                                            'per_lang', 'bounds')}
+        d['functions'] = sorted(self.functions)
+        d['intrinsics'] = sorted(self.intrinsics)
+        d['violations'] = [(v.obligation, v.key, v.what, v.replay) for v in self.violations]
+        return d
+
+    def absorb_export(self, d):
+        for k in ('obligations', 'discharged', 'queries', 'solver_time', 'covers', 'covers_sat', 'replayed', 'paths',
+                  'stmts', 'states', 'transitions', 'bound_cuts'):
+            setattr(self, k, getattr(self, k) + d[k])
+        self.samples.extend(d['samples'])
+        for m in d['known_hits']:
+            if m not in self.known_hits:
+                self.known_hits.append(m)
+        self.inconclusive.extend(d['inconclusive'])
+        for k in ('outside', 'assumptions', 'notes'):
+            for x in d[k]:
+                if x not in getattr(self, k):
+                    getattr(self, k).append(x)
+        self.per_lang.update(d['per_lang'])
+        self.bounds.update(d['bounds'])
+        self.functions |= set(d['functions'])
+        self.intrinsics |= set(d['intrinsics'])
+        for o, k, w, r in d['violations']:
+            self.violations.append(Violation(o, k, w, r))
 
     # -------------------------------------------------------------- finish
     def finish(self, level_explanation='', checker_cmd=None):
@@ -344,12 +399,45 @@ class Check:
         return status
 
 
+def run_parallel(ck, worker, jobs, nproc=None):
+    """run worker(job, tier, seed, pid) -> export dict in a process pool and absorb the results in job order"""
+    import multiprocessing as mp
+    nproc = nproc or min(len(jobs), int(os.environ.get('VERIF_JOBS', '0') or 0) or (os.cpu_count() or 4))
+    load_mir()           # parse once before forking
+    native_mod.build('dev')
+    ctx = mp.get_context('fork')
+    with ctx.Pool(nproc) as pool:
+        results = [pool.apply_async(_guarded_worker, (worker, j, ck.tier, ck.seed, ck.pid)) for j in jobs]
+        for j, r in zip(jobs, results):
+            d = r.get()
+            ck.absorb_export(d)
+
+
+def _guarded_worker(worker, job, tier, seed, pid):
+    sub = Check(pid, tier, seed)
+    try:
+        worker(sub, job)
+    except (Unsupported, MirUnsupported, Inconclusive) as e:
+        sub.inconclusive.append('%s [%s]: %s' % (type(e).__name__, job, e))
+        traceback.print_exc()
+    except Exception as e:       # a crash of the machinery is inconclusive, never a pass
+        sub.inconclusive.append('CRASH [%s]: %s: %s' % (job, type(e).__name__, e))
+        traceback.print_exc()
+    if sub._native is not None:
+        sub._native.close()
+    return sub.export()
+
+
 def run_check(pid, fn, tier=None):
     ck = Check(pid, tier)
     try:
         expl = fn(ck)
     except (Unsupported, MirUnsupported, Inconclusive) as e:
         ck.inconclusive.append('%s: %s' % (type(e).__name__, e))
+        traceback.print_exc()
+        expl = 'aborted: ' + str(e)
+    except Exception as e:
+        ck.inconclusive.append('CRASH: %s: %s' % (type(e).__name__, e))
         traceback.print_exc()
         expl = 'aborted: ' + str(e)
     return ck.finish(expl or '')
